@@ -238,15 +238,55 @@ Proof.
   apply bind_panic in H. destruct H as [H|(rc & _ & H)]; [exact (authorized_no_panic _ _ _ H)|]. np H.
 Qed.
 
+Lemma update_ctx_tail_no_panic cfg s c rc provs cap timeout freq total :
+  update_ctx_tail cfg s c rc provs cap timeout freq total <> Panic.
+Proof.
+  unfold update_ctx_tail. intros H.
+  apply bind_panic in H. destruct H as [H|(rc1 & _ & H)].
+  { destruct (coins_empty cap); [discriminate|].
+    apply bind_panic in H. destruct H as [H|(capv & _ & H)]; [exact (one_base_coin_no_panic _ H)|discriminate]. }
+  np H.
+Qed.
+
 Lemma h_update_ctx_no_panic cfg s c who provs cap timeout freq total ok :
   h_update_ctx cfg s c who provs cap timeout freq total ok <> Panic.
 Proof.
   unfold h_update_ctx. intros H. np H.
   apply bind_panic in H. destruct H as [H|(rc & _ & H)]; [exact (authorized_no_panic _ _ _ H)|]. np H.
-  apply bind_panic in H. destruct H as [H|(rc1 & _ & H)].
-  { destruct (coins_empty cap); [discriminate|].
-    apply bind_panic in H. destruct H as [H|(capv & _ & H)]; [exact (one_base_coin_no_panic _ H)|discriminate]. }
-  np H.
+  exact (update_ctx_tail_no_panic _ _ _ _ _ _ _ _ _ H).
+Qed.
+
+(* the keeper API driven by the owning module *)
+Lemma authorized_mod_no_panic s c who : authorized_mod s c who <> Panic.
+Proof. unfold authorized_mod. intros H. np H. Qed.
+
+Lemma h_mod_pause_no_panic s c who : h_mod_pause s c who <> Panic.
+Proof.
+  unfold h_mod_pause. intros H.
+  apply bind_panic in H. destruct H as [H|(rc & _ & H)]; [exact (authorized_mod_no_panic _ _ _ H)|]. np H.
+Qed.
+
+Lemma h_mod_start_no_panic s c who : h_mod_start s c who <> Panic.
+Proof.
+  unfold h_mod_start. intros H.
+  apply bind_panic in H. destruct H as [H|(rc & _ & H)]; [exact (authorized_mod_no_panic _ _ _ H)|]. np H.
+  match type of H with (if ?u then _ else _) = _ => destruct u end; discriminate.
+Qed.
+
+Lemma h_mod_kill_no_panic s c who : h_mod_kill s c who <> Panic.
+Proof.
+  unfold h_mod_kill. intros H.
+  apply bind_panic in H. destruct H as [H|(rc & _ & H)]; [exact (authorized_mod_no_panic _ _ _ H)|]. np H.
+Qed.
+
+Lemma h_mod_update_no_panic cfg s c who provs thr cap timeout freq total :
+  h_mod_update cfg s c who provs thr cap timeout freq total <> Panic.
+Proof.
+  unfold h_mod_update. intros H.
+  apply bind_panic in H. destruct H as [H|(rc & _ & H)]; [exact (authorized_mod_no_panic _ _ _ H)|]. np H.
+  apply bind_panic in H. destruct H as [H|(rc0 & _ & H)].
+  { destruct (c_mod rc =? 0); [discriminate|]. np H. unfold thr_update in H. np H. }
+  exact (update_ctx_tail_no_panic _ _ _ _ _ _ _ _ _ H).
 Qed.
 
 Lemma h_transfer_no_panic s from to amt : h_transfer s from to amt <> Panic.
@@ -369,6 +409,10 @@ Proof.
   - now apply (C13_withdraw_no_panic cfg).
   - apply h_transfer_no_panic.
   - discriminate.
+  - apply h_mod_update_no_panic.
+  - apply h_mod_pause_no_panic.
+  - apply h_mod_start_no_panic.
+  - apply h_mod_kill_no_panic.
 Qed.
 
 Lemma step_outcome cfg s o : snd (step cfg s o) = RPanic <-> handle cfg s o = Panic.
